@@ -83,6 +83,7 @@ def check_C01(ctx):
         for k in st:
             st[k] += st2[k]
     rej = ctx.validate_shards("StepTrace", shards, mode="C01", heap="4g")
+    ctx.binding_selftest("StepTrace", shards, "C01")
     ctx.cov["traces_validated_against_impl"] = st["steps"]
     ctx.cov["evaluations"] = st["steps"]
     ctx.cov["distinct_nontrivial"] = st["limited"]
@@ -125,6 +126,7 @@ def check_C11(ctx):
     for k in st:
         st[k] += st2[k]
     rej = ctx.validate_shards("StepTrace", shards, mode="C11", heap="4g")
+    ctx.binding_selftest("StepTrace", [s for s in shards if "forms" in s] or shards, "C11")
     ctx.cov["traces_validated_against_impl"] = st["steps"]
     ctx.cov["evaluations"] = st["steps"]
     ctx.cov["distinct_nontrivial"] = st["limited"]
@@ -245,6 +247,7 @@ def check_C02(ctx):
     shards += s3
     ctx.notes["repository_warrior_battles_on_8000_cells"] = st3["battles"]
     rej = ctx.validate_shards("BattleTrace", shards, mode="C02", heap="4g")
+    ctx.binding_selftest("BattleTrace", shards, "C02", cfg="BattleTrace.cfg")
     ctx.cov["traces_validated_against_impl"] = st["battles"] + st2["battles"] + st3["battles"]
     ctx.cov["evaluations"] = st["events"] + st2["events"]
     ctx.cov["distinct_nontrivial"] = st["multi_death"] + st["at_limit"] + st2["multi_death"] + st2["at_limit"]
@@ -281,6 +284,7 @@ def check_C12(ctx):
     shards, st = gen_battles(ctx, "rot", ["-shards", 16 if ctx.quick else 64, "-n", 600 if ctx.quick else 15000], "rot")
     rej = ctx.validate_shards("BattleTrace", shards, mode="C12", heap="4g")
     rej2 = ctx.validate_shards("BattleTrace", shards, mode="C02", heap="4g")
+    ctx.binding_selftest("BattleTrace", shards, "C02", cfg="BattleTrace.cfg")
     ctx.cov["traces_validated_against_impl"] = st["battles"]
     ctx.cov["evaluations"] = st["pairs"]
     ctx.cov["distinct_nontrivial"] = st["wrapped_loads"] + st["offsets_beyond_core"]
@@ -300,6 +304,7 @@ def check_C15(ctx):
     shards, st = gen_battles(ctx, "battles", ["-shards", 16 if ctx.quick else 64, "-n", 1200 if ctx.quick else 30000, "-reports", "-twin=false"], "br")
     s2, st2 = gen_battles(ctx, "battles", ["-shards", 8 if ctx.quick else 32, "-n", 600 if ctx.quick else 15000, "-reports", "-hostile", "-twin=false"], "bh")
     rej = ctx.validate_shards("BattleTrace", shards + s2, mode="C15", heap="4g")
+    ctx.binding_selftest("BattleTrace", shards, "C15", cfg="BattleTrace.cfg")
     ctx.cov["traces_validated_against_impl"] = st["battles"] + st2["battles"]
     ctx.cov["evaluations"] = st["events"] + st2["events"]
     ctx.cov["distinct_nontrivial"] = st["multi_death"] + st["at_limit"] + st2["multi_death"] + st2["at_limit"]
